@@ -155,7 +155,16 @@ class CutSeq:
         if not self.h.symbolic:
             from .engine import ReplayMismatch
             raise ReplayMismatch("loop-cut obligation: n and the element family are uninterpreted, no native replay")
-        return _CutIter(self)
+        self.it = _CutIter(self)
+        return self.it
+
+    __reversed__ = __iter__          # reversed(seq): the element family is arbitrary, so the reversed sequence is again an arbitrary family
+
+    @property
+    def left_early(self):
+        """True after the real function returned when the loop was left by `break` / `return` inside the generic iteration (no second arrival):
+        the harness then states its exit clauses over `self.it.state` (the havoc'd locals at index i) and `self.it.e` (the element as the body left it)."""
+        return getattr(self, "it", None) is not None and self.it.stage == 1
 
 
 class _CutIter:
@@ -187,6 +196,7 @@ class _CutIter:
                 new[nm] = POISON
             _write_locals(f, new)
             L = dict(f.f_locals)
+            self.state = dict(new)
             for nm, cl in s.inv(i, L):
                 h.assume(cl)
             h.cover(f"{s.name}.{case}")
